@@ -55,10 +55,10 @@ AllChunk == [o \in DOMAIN A \cup DOMAIN D |->
 MinOf(S) == CHOOSE x \in S : \A y \in S : x <= y
 \* classification of a miss = the finding signature: first missed minute, was the price inside that
 \* minute's own range or only in the gap to the previous close, was another order filled before, how many
-\* orders were resting inside the chunk range when the chunk began
+\* orders priced inside the chunk range were alive during the chunk
 MissMin(all, o) == MinOf({m \in ChunkMins : m > all[o].bmin /\ InMinute(m, all[o].p)})
 ChunkCandle == Agg([m \in 1..cn |-> IF m = 1 THEN Fixed(ci) ELSE Raw(ci + m - 1)])
-NInRange(all) == Cardinality({o \in DOMAIN all : all[o].bmin < ci /\ Includes(ChunkCandle, all[o].p)})
+NInRange(all) == Cardinality({o \in DOMAIN all : Includes(ChunkCandle, all[o].p)})    \* resting at the start or created by hooks
 ChunkVerdict ==
   LET all == AllChunk ms == MissedIn(all) IN
   IF ms = {} \/ ~On("fill") THEN "ok"
@@ -84,6 +84,10 @@ WalletOK(pre, post, q8, entryU, priceU) ==
 
 \* ---------------- events ----------------
 E == Ev[l]
+\* class of a market order whose price is not the current price: a reduce-only exit whose declared price is
+\* within 0.015 % of the current price (Broker.reduce_position_at routes it to a market order but keeps the
+\* declared price); pu / cu are the prices rounded to 1/1000
+NearDeclared == E.ro /\ E.cu > 0 /\ Abs(E.pu - E.cu) <= 20000 /\ Abs(E.pu - E.cu) * 100000 <= 15 * E.cu + 200000
 Submit ==
   IF E.typ = "MARKET"
   THEN IF L.on
@@ -96,7 +100,10 @@ Submit ==
                           ELSE "ok"
             /\ M' = With(M, E.oid, [p |-> E.p, q |-> E.qh, liq |-> TRUE])
             /\ UNCHANGED <<A>>
-       ELSE /\ verdict' = IF On("market") /\ E.p # E.cur THEN "market:price-is-not-the-current-price-at-submission" ELSE "ok"
+       ELSE /\ verdict' = IF On("market") /\ E.p # E.cur
+                          THEN "market:price-is-not-the-current-price-at-submission" \o
+                               (IF NearDeclared THEN ":reduce-only-exit-declared-within-0.015%-of-the-current-price" ELSE "")
+                          ELSE "ok"
             /\ M' = With(M, E.oid, [p |-> E.p, q |-> E.qh, liq |-> FALSE])
             /\ UNCHANGED <<A, L>>
   ELSE /\ A' = With(A, E.oid, [p |-> E.p, q |-> E.qh,
